@@ -3,7 +3,7 @@
    ran the same scenario on the real package); [run_flat] decodes it, interprets
    it on the model and returns the flat transcript, which must equal the
    implementation's transcript.  Executable only; no proofs here. *)
-From Ice Require Import Base Spec.
+From Ice Require Import Base Spec Varint Chunk Postings Crc32 Footer.
 
 (* ---- parser over a flat list of numbers ---- *)
 Definition P (A : Type) := list N -> option (A * list N).
@@ -44,13 +44,14 @@ Inductive op :=
 | OReload (slot kind : N)
 | OObsAll (slot : N)
 | ODict (slot : N) (f : bytes) (lo hi pre : option bytes)
-| OIter (slot : N) (f t : bytes) (except : list N) (fl : bool * bool * bool)
+| OIter (slot : N) (f t : bytes) (except : option (list N)) (fl : bool * bool * bool)
         (replace : option (list N)) (ops : list iter_op)
 | OStored (slot n : N) (stop : option N)
 | ODV (slot : N) (fields : list bytes) (visits : list N)
 | ODocsMatching (slot : N) (terms : list (bytes * bytes))
 | OStats (slot : N) (f : bytes)
-| OContains (slot : N) (f t : bytes).
+| OContains (slot : N) (f t : bytes)
+| OFooter (slot : N) (file : bytes).
 
 Definition piterop : P iter_op :=
   let%p k := pnum in
@@ -68,7 +69,7 @@ Definition pop : P op :=
   | 11 => let%p s := pnum in let%p f := pbytes in let%p lo := popt pbytes in
           let%p hi := popt pbytes in let%p pre := popt pbytes in pret (ODict s f lo hi pre)
   | 12 => let%p s := pnum in let%p f := pbytes in let%p t := pbytes in
-          let%p ex := plist pnum in
+          let%p ex := popt (plist pnum) in
           let%p a := pbool in let%p b := pbool in let%p c := pbool in
           let%p rep := popt (plist pnum) in
           let%p _ := pnum in let%p _ := pnum in     (* object-reuse slots: ignored by the model *)
@@ -82,6 +83,7 @@ Definition pop : P op :=
           pret (ODocsMatching s ts)
   | 16 => let%p s := pnum in let%p f := pbytes in pret (OStats s f)
   | 17 => let%p s := pnum in let%p f := pbytes in let%p t := pbytes in pret (OContains s f t)
+  | 20 => let%p s := pnum in let%p b := pbytes in pret (OFooter s b)
   | _ => fun _ => None
   end.
 
@@ -119,37 +121,82 @@ Definition obs_all (A : ASeg) : list N :=
   flat_map' (fun nd => w_list w_pair (o_stored A (fst nd))) (number_from 0 (as_docs A)) ++
   flat_map' (fun nd => w_list w_pair (o_dv A (o_fields A) (fst nd))) (number_from 0 (as_docs A)).
 
-Definition slot (st : list ASeg) (s : N) : ASeg :=
-  opt_default (mkASeg [] [] []) (nthN st (N.to_nat s)).
+(* a segment slot remembers how it was written: the chunk mode and whether a
+   merge wrote it (only merges use the 1-hit encoding) *)
+Record Slot := mkSlot { sl_seg : ASeg; sl_cm : N; sl_merged : bool }.
 
-Definition run_iter_spec (A : ASeg) (f t : bytes) (ex : list N) (fl : bool * bool * bool)
+Definition slot (st : list Slot) (s : N) : ASeg :=
+  match nthN st (N.to_nat s) with Some x => sl_seg x | None => mkASeg [] [] [] end.
+Definition slot_full (st : list Slot) (s : N) : Slot :=
+  opt_default (mkSlot (mkASeg [] [] []) 1025 false) (nthN st (N.to_nat s)).
+
+(* the stored form of a term's postings in a segment written with chunk mode cm *)
+Definition to_eposting (fields : list bytes) (p : APosting) : EPosting :=
+  let '(d, (fr, (nm, ls))) := p in
+  (d, (fr, (nm, map (fun l => (opt_default 0 (index_of (fst l) fields 0), snd l)) ls))).
+
+Definition mask31 : N := 2147483647.
+
+Definition encode_term (sl : Slot) (f t : bytes) : EncPL :=
+  let A := sl_seg sl in
+  let ps := map (to_eposting (as_fields A)) (o_postings A f t) in
+  let one_hit :=
+    match ps with
+    | [p] => sl_merged sl && negb (ep_hasLocs p) && (ep_doc p <=? mask31) && (ep_freq p =? 1)
+    | _ => false
+    end in
+  match ps, one_hit with
+  | [p], true => E1Hit (ep_doc p) (N.land (ep_norm p) mask31)
+  | _, _ =>
+      let cs := opt_default 0 (getChunkSize (sl_cm sl) (lenN ps) (o_count A)) in
+      encode_gen cs (N.to_nat (num_chunks cs (o_count A - 1))) ps
+  end.
+
+Definition w_delivered (o : option APosting) : list N :=
+  match o with None => [0] | Some p => 1 :: w_posting p end.
+
+(* the iterator op runs the L1 cursor machine over the encoded postings *)
+Definition run_iter_l1 (sl : Slot) (f t : bytes) (ex : option (list N)) (fl : bool * bool * bool)
            (rep : option (list N)) (ops : list iter_op) : list N :=
-  let all := o_postings A f t in
-  let lv := filter (live ex) all in
-  let actual := match rep with
-                | None => lv
-                | Some bm => filter (fun p => memN (fst p) bm) all
-                end in
-  lenN lv :: flat_map' (w_step fl) (spec_run actual ops).
+  let e := encode_term sl f t in
+  let absent := match o_postings (sl_seg sl) f t with [] => true | _ => false end in
+  if absent then 0 :: flat_map' (fun _ => [0]) ops
+  else
+    let i0 := it_init e ex (flags_fn fl) (flags_locs fl) (as_fields (sl_seg sl)) None in
+    let i1 := match rep with Some bm => it_replace i0 bm | None => i0 end in
+    match it_run i1 ops with
+    | Ok outs => pl_count e ex :: flat_map' w_delivered outs
+    | Err => [4294967294; 1]
+    | _ => [4294967294; 2]
+    end.
 
-Definition step (st : list ASeg) (o : op) : list ASeg * list N :=
+Definition step (st : list Slot) (o : op) : list Slot * list N :=
   match o with
-  | OBuild _ b => let A := abs_of_batch harness_norm b in (st ++ [A], [o_count A])
-  | OMerge _ ins =>
+  | OBuild cm b => let A := abs_of_batch harness_norm b in (st ++ [mkSlot A cm false], [o_count A])
+  | OMerge cm ins =>
       let '(A, nums) := merge_spec (map (fun p => (slot st (fst p), snd p)) ins) in
-      (st ++ [A], w_list (w_list (fun x => [x])) nums ++ [o_count A])
-  | OReload s _ => (st ++ [slot st s], [o_count (slot st s)])
+      (st ++ [mkSlot A cm true], w_list (w_list (fun x => [x])) nums ++ [o_count A])
+  | OReload s _ => (st ++ [slot_full st s], [o_count (slot st s)])
   | OObsAll s => (st, obs_all (slot st s))
   | ODict s f lo hi pre => (st, w_list w_dictentry (o_dict (slot st s) f lo hi pre))
-  | OIter s f t ex fl rep ops => (st, run_iter_spec (slot st s) f t ex fl rep ops)
+  | OIter s f t ex fl rep ops => (st, run_iter_l1 (slot_full st s) f t ex fl rep ops)
   | OStored s n stop => (st, w_list w_pair (o_stored_stop (slot st s) n stop))
   | ODV s fs vs => (st, flat_map' (fun n => w_list w_pair (o_dv (slot st s) fs n)) vs)
   | ODocsMatching s ts => (st, w_list (fun x => [x]) (o_docsmatching (slot st s) ts))
   | OStats s f => (st, w_stats (o_stats (slot st s) f))
   | OContains s f t => (st, w_bool (o_contains (slot st s) f t))
+  | OFooter s file =>
+      (* the real bytes of a persisted file: parse the footer, recompute the CRC *)
+      (st, match parse_footer file with
+           | Ok ft => [lenN file; ft_numDocs ft; ft_stored ft; ft_fields ft; ft_dv ft;
+                       ft_chunkMode ft; ft_version ft;
+                       if crc_ok file && (ft_numDocs ft =? o_count (slot st s))
+                          && (ft_chunkMode ft =? sl_cm (slot_full st s)) then 1 else 0]
+           | _ => [4294967294; 1]
+           end)
   end.
 
-Fixpoint run_ops (st : list ASeg) (ops : list op) : list N :=
+Fixpoint run_ops (st : list Slot) (ops : list op) : list N :=
   match ops with
   | [] => []
   | o :: ops' => let '(st', out) := step st o in (lenN out :: out) ++ run_ops st' ops'
